@@ -157,12 +157,37 @@ pub struct WideCase {
     left: String,
     right: String,
     align: Option<Align>,
+    /// a template line in front of the tested one: 0 `{wide_bar}|`, 1 a `{wide_msg}` with another
+    /// alignment, 2 plain text - what is wide on one line must not govern the next
+    #[serde(default)]
+    line_before: Option<u8>,
+    /// the message gets a TAB at this character index and is drawn once at tab width `.1` before the
+    /// width is changed to `.2` and the tested frame is drawn
+    #[serde(default)]
+    tab: Option<(u8, u8, u8)>,
 }
 
 fn run_wide(c: &WideCase) -> CaseResult {
-    let content = content_of(&c.chunks);
+    let raw = content_of(&c.chunks);
+    // (a TAB only between plain characters: chunk boundaries may be inside an SGR sequence)
+    let (msg, content) = match c.tab {
+        Some((at, _, w2)) if !raw.contains('\u{1b}') => {
+            let i = raw.char_indices().map(|(i, _)| i).chain([raw.len()]).nth(at as usize % (raw.chars().count() + 1)).unwrap();
+            let m = format!("{}\t{}", &raw[..i], &raw[i..]);
+            let e = model::expand_tabs(&m, w2 as usize % 17);
+            (m, e)
+        }
+        _ => (raw.clone(), raw.clone()),
+    };
+    let tabbed = msg != content || msg.contains('\t');
+    let first = match c.line_before {
+        Some(0) => "{wide_bar}|\n".to_string(),
+        Some(1) => format!("{{wide_msg:{}}}|\n", if c.align == Some(Align::Right) { "<" } else { ">" }),
+        Some(_) => "plain text\n".to_string(),
+        None => String::new(),
+    };
     let template = format!(
-        "{}{{wide_msg{}}}{}",
+        "{first}{}{{wide_msg{}}}{}",
         c.left,
         c.align.map(|a| format!(":{}", a.flag())).unwrap_or_default(),
         c.right
@@ -170,7 +195,11 @@ fn run_wide(c: &WideCase) -> CaseResult {
     let style = catch(|| ProgressStyle::with_template(&template))
         .map_err(|p| Fail::new("panic", format!("with_template({template:?}) panicked: {p}")))?
         .map_err(|e| Fail::new("rejected", format!("with_template({template:?}) rejected: {e}")))?;
-    let setup = BarSetup { msg: content.clone(), cols: c.term, rows: 500, ..Default::default() };
+    let mut setup = BarSetup { msg: msg.clone(), cols: c.term, rows: 500, ..Default::default() };
+    if let (true, Some((_, w1, w2))) = (tabbed, c.tab) {
+        setup.tab_width = Some(w1 as usize % 17);
+        setup.retab = Some(w2 as usize % 17);
+    }
     let lines = match render(style, &setup) {
         Ok(l) => l,
         Err(RenderErr::Panic(p)) => return Err(Fail::new("panic", format!("rendering {template:?} msg {content:?} on {} columns panicked: {p}", c.term))),
@@ -178,8 +207,9 @@ fn run_wide(c: &WideCase) -> CaseResult {
     };
     let rest = model::cols(&c.left) + model::cols(&c.right);
     let width = (c.term as usize).saturating_sub(rest);
-    let line = lines.first().cloned().unwrap_or_default();
-    ensure!(lines.len() <= 1, "lines", "template {template:?}: expected one line, got {lines:?}");
+    let skip = usize::from(c.line_before.is_some());
+    let line = lines.get(skip).cloned().unwrap_or_default();
+    ensure!(lines.len() <= 1 + skip, "lines", "template {template:?}: expected {} line(s), got {lines:?}", 1 + skip);
     let inner = line
         .strip_prefix(c.left.as_str())
         .and_then(|l| l.strip_suffix(c.right.as_str()))
@@ -213,6 +243,8 @@ fn run_wide(c: &WideCase) -> CaseResult {
     classify(&mut v, &c.chunks, content_cols, width, true);
     v.label_if(rest > c.term as usize, "rest_does_not_fit");
     v.label_if(c.right.is_empty(), "wide_msg_last");
+    v.label_if(c.line_before.is_some(), "second_line_of_a_template_with_another_wide_element");
+    v.label_if(tabbed, "tab_width_changed_between_two_draws");
     Ok(v)
 }
 
@@ -223,8 +255,10 @@ fn wide_strategy() -> BoxedStrategy<WideCase> {
         "[a-z:\\[\\] \u{e9}\u{4e16}]{0,6}",
         prop_oneof![3 => "[a-z:|\\]\u{e9}\u{4e16}]{1,4}", 1 => Just(String::new())],
         proptest::option::weighted(0.4, prop_oneof![Just(Align::Left), Just(Align::Center), Just(Align::Right)]),
+        proptest::option::weighted(0.3, 0u8..3),
+        proptest::option::weighted(0.25, (any::<u8>(), 0u8..17, 0u8..17)),
     )
-        .prop_map(|(chunks, term, left, right, align)| WideCase { chunks, term, left, right, align })
+        .prop_map(|(chunks, term, left, right, align, line_before, tab)| WideCase { chunks, term, left, right, align, line_before, tab })
         .boxed()
 }
 
@@ -253,7 +287,7 @@ fn decode_pad(u: &mut FuzzInput) -> PadCase {
 
 fn decode_wide(u: &mut FuzzInput) -> WideCase {
     let lit = |u: &mut FuzzInput, max: usize| -> String { (0..u.n(max)).map(|_| u.pick(&['a', ':', '[', ']', ' ', '\u{e9}', '\u{4e16}'])).collect() };
-    WideCase { chunks: decode_chunks(u), term: 1 + u.n(99) as u16, left: lit(u, 6), right: lit(u, 4), align: [None, None, Some(Align::Left), Some(Align::Center), Some(Align::Right)][u.n(4)] }
+    WideCase { chunks: decode_chunks(u), term: 1 + u.n(99) as u16, left: lit(u, 6), right: lit(u, 4), align: [None, None, Some(Align::Left), Some(Align::Center), Some(Align::Right)][u.n(4)], line_before: if u.n(3) == 0 { Some(u.n(2) as u8) } else { None }, tab: if u.n(3) == 0 { Some((u.u8(), u.n(16) as u8, u.n(16) as u8)) } else { None } }
 }
 
 pub fn property() -> Property {
@@ -273,7 +307,7 @@ pub fn property() -> Property {
                 name: "field",
                 rule: "content = 0-4 chunks (ASCII, multi-byte single-width, double-width, SGR-wrapped) through {msg}/{prefix}/a custom key with width around the content width / small / any u16, every alignment, '!' on/off; compared cell-wise with the reference field; non-trivial = non-ASCII or SGR content on the padding or truncation path",
                 strategy: |_| pad_strategy(),
-                cases: |t| t.pick(12_000, 2_000_000),
+                cases: |t| t.pick(36_000, 2_000_000),
                 run: run_pad,
                 signature: no_signature,
                 essential: &["truncation_path", "truncation_non_ascii_or_sgr", "padding_path", "overflow_unshortened", "double_width", "sgr"],
@@ -284,7 +318,7 @@ pub fn property() -> Property {
                 name: "wide_msg",
                 rule: "literal{wide_msg[:align]}literal on terminals 1..200 columns with the same contents: wide_msg must equal a truncating field of width terminal - rest and the line must not exceed the terminal when the rest fits",
                 strategy: |_| wide_strategy(),
-                cases: |t| t.pick(8_000, 1_200_000),
+                cases: |t| t.pick(24_000, 1_200_000),
                 run: run_wide,
                 signature: no_signature,
                 essential: &["truncation_path", "truncation_non_ascii_or_sgr", "padding_path", "rest_does_not_fit", "wide_msg_last"],
